@@ -5,5 +5,5 @@ FAMILIES = [{'name': 'rewrite', 'ids': [1, 2, 3, 4], 'vals': [5], 'maxv': 8, 'ma
 
 
 def run(prop, tier, replay):
-    return T.run(prop, tier, FAMILIES, {'OneVersionPerCommit', 'RewritePreservesContents'}, reread=False,
+    return T.run(prop, tier, FAMILIES, {'OneVersionPerCommit', 'RewritePreservesContents'}, replay=replay, reread=False,
                  assumptions=['concurrency is expressed as stale read versions + commit order (commit atomicity is C01/C02)', 'scenarios keep the key column unique (lance does not enforce keys)', 'conflict_retries = 0 so a retryable conflict surfaces instead of re-executing'])
